@@ -116,7 +116,9 @@ Definition full_demand (t : ftable) : list (N * N) := open_demand t ++ read_dema
 Definition declared_ranges (t : ftable) : list (N * N) :=
   [(0, 4); (ft_size t - 8, 8); (ft_size t - (ft_footer t + 8), ft_footer t);
    hull (map ck_ci (ft_rows t)); hull (map ck_oi (ft_rows t))] ++
-  flat_map (fun c => [(ck_start c, ck_size c); (fst (ck_bloom c), ft_size t - fst (ck_bloom c))]) (ft_rows t).
+  flat_map (fun c => (ck_start c, ck_size c) ::
+                     (if 0 <? fst (ck_bloom c) then [(fst (ck_bloom c), ft_size t - fst (ck_bloom c))] else []))
+           (ft_rows t).
 
 (** the declared ranges every byte of which a full read needs *)
 Definition needed_ranges (t : ftable) : list (N * N) :=
